@@ -334,7 +334,7 @@ func (m *MonSlippage) judge(s *Sim, o *slipObs, refund map[types.CoinID]*big.Int
 	switch tr.Kind {
 	case "sell":
 		if got.Cmp(tr.Limit) < 0 {
-			m.viol(s, o, "limit", limitSite, fmt.Sprintf("credited %s of coin %d, less than the minimum %s", got, B, tr.Limit))
+			m.viol(s, o, "limit", limitSite+offBy(tr.Limit, got), fmt.Sprintf("credited %s of coin %d, less than the minimum %s", got, B, tr.Limit))
 		}
 		if spent.Cmp(tr.Value) != 0 {
 			m.viol(s, o, "amount", site, fmt.Sprintf("debited %s of coin %d for a sale of %s", spent, S, tr.Value))
@@ -344,7 +344,7 @@ func (m *MonSlippage) judge(s *Sim, o *slipObs, refund map[types.CoinID]*big.Int
 		}
 	case "buy":
 		if spent.Cmp(tr.Limit) > 0 {
-			m.viol(s, o, "limit", limitSite, fmt.Sprintf("debited %s of coin %d, more than the maximum %s", spent, S, tr.Limit))
+			m.viol(s, o, "limit", limitSite+offBy(spent, tr.Limit), fmt.Sprintf("debited %s of coin %d, more than the maximum %s", spent, S, tr.Limit))
 		}
 		if got.Cmp(tr.Value) != 0 {
 			m.viol(s, o, "amount", site, fmt.Sprintf("credited %s of coin %d for a purchase of %s", got, B, tr.Value))
@@ -354,7 +354,7 @@ func (m *MonSlippage) judge(s *Sim, o *slipObs, refund map[types.CoinID]*big.Int
 		}
 	case "sellall":
 		if got.Cmp(tr.Limit) < 0 {
-			m.viol(s, o, "limit", limitSite, fmt.Sprintf("credited %s of coin %d, less than the minimum %s", got, B, tr.Limit))
+			m.viol(s, o, "limit", limitSite+offBy(tr.Limit, got), fmt.Sprintf("credited %s of coin %d, less than the minimum %s", got, B, tr.Limit))
 		}
 		// everything the sender had is gone: what is left can only be what its own orders were paid
 		left := new(big.Int).Sub(bget(o.bal1, S), bget(credit, S))
@@ -499,6 +499,7 @@ type c15Plan struct {
 	Value     *big.Int
 	Payload   []byte
 	Mode      string // exact | inside | across | loose
+	Far       int    // across: 10^Far units beyond the boundary (0 = one unit)
 	probe     *big.Int
 	probeOK   bool
 	probeTags map[string]string
@@ -525,7 +526,13 @@ func (p *c15Plan) limit() *big.Int {
 	}
 	switch p.Mode {
 	case "across":
-		l.Add(l, big.NewInt(sign))
+		// one unit across the boundary, or (a third of the time) further across: 10^6 or 10^12 units, still unattainable
+		// (lead: added after seed C15-m2 - a mis-prediction larger than a rounding unit must not hide in the one-pip class)
+		step := big.NewInt(sign)
+		if p.Far > 0 {
+			step.Mul(step, new(big.Int).Exp(big.NewInt(10), big.NewInt(int64(p.Far)), nil))
+		}
+		l.Add(l, step)
 	case "inside":
 		l.Sub(l, big.NewInt(sign))
 	}
@@ -750,6 +757,7 @@ func (c *c15Gen) plan() *c15Plan {
 		p.Mode = "inside"
 	case x < 92:
 		p.Mode = "across"
+		p.Far = []int{0, 0, 6, 12}[r.Intn(4)]
 	default:
 		p.Mode = "loose"
 	}
@@ -924,4 +932,12 @@ func codeClass(c uint32) string {
 		return "accepted"
 	}
 	return fmt.Sprintf("code%d", c)
+}
+
+// offBy classifies by how much a limit was missed (the one known deviation is by exactly one pip).
+func offBy(a, b *big.Int) string {
+	if new(big.Int).Sub(a, b).CmpAbs(big.NewInt(1)) == 0 {
+		return "/off-by-one-pip"
+	}
+	return "/off-by-more"
 }
